@@ -118,11 +118,14 @@ def check_labels(s, shown, exps, case, V, also_as_filter=False):
     for cn, labs in labels_per_conn.items():
         if len(set(labs)) != len(labs):
             V.append(Violation('labels.shared', case, {'connection': cn, 'labels': sorted(labs)}))
+    n_filtered = 0
     for (cn, lab), want in sorted(sets.items()):
         short = lab.split('@', 1)[1]
         for spelling in ('%s: %s' % (cn, short), '%s:%s' % (cn, short)):
-            if also_as_filter:
-                # the label is first added to the output filter, then asked for: the very same text, used twice
+            if also_as_filter and n_filtered < 8:
+                # the label is first added to the output filter, then asked for: the very same text, used twice (the first
+                # eight labels of a history: the filter grows with every one of them)
+                n_filtered += 1
                 s.cmd('filter ' + spelling)
             got, err = listed(s, spelling, shown)
             want_lines = [shown[i] for i in sorted(want)]
